@@ -1,5 +1,8 @@
 SPECIFICATION Spec
 CONSTANTS
+  Creations = {1}
+  MaxSet = 0
+  CreationRewinds = FALSE
   Threads = {t1, t2, t3}
   MaxId = 3
   SerialMod = 4
